@@ -14,13 +14,14 @@ DIMS = dict(
     grid=["uniform", "geom", "geom_local", "function", "density", "free", "uniform_lt0", "uniform_lT", "geom_lt0_lT"],
     horizon=["fixed", "Tfree", "t0free", "bothfree", "Tparam", "t0param"],
     state=["vec2", "scalar", "mat22"],
-    second=[False, True],
+    second=[False, True, "vec"],
     rhs=["nl_t", "nl", "lin_t"],
     control=["one", "none", "two"],
     pg=[None, "scalar", "mat"],
-    pc=[None, "control", "control+"],
+    pc=[None, "control", "control+", "both"],
     vg=[False, True],
-    vc=[None, "control", "control+"],
+    vc=[None, "control", "control+", "both"],
+    concat=[False, True],      # dynamics declared with ONE set_der / set_next call on a concatenation of the states
 )
 CORE = ("method", "intg", "N", "M", "grid", "horizon", "rhs", "pc", "vc")
 
@@ -49,6 +50,18 @@ def cases(tier):
         if h in seen: continue
         seen.add(h)
         out.append(dict(d=d, dev=dev))
+    # declarations through one concatenated set_der / set_next call: every state-shape combination x method x scheme
+    for stt in ("vec2", "mat22", "scalar"):
+        for sec in (True, "vec"):
+            for meth in ("MS", "SS"):
+                for ig in ("rk", "expl_euler", "set_next"):
+                    b = {n: DIMS[n][0] for n in DIMS}
+                    b.update(state=stt, second=sec, concat=True, method=meth, intg=ig, M=2)
+                    d = finish(b)
+                    h = explore.sha(d)
+                    if h in seen: continue
+                    seen.add(h)
+                    out.append(dict(d=d, dev=["state", "second", "concat", "method", "intg", "M"]))
     if tier == "thorough":
         core = {n: DIMS[n] for n in CORE}
         for a, dev in explore.deviations(core, 4):
@@ -70,11 +83,24 @@ def psys_layout(d):
     if d["horizon"] == "Tparam": lay.append(("Tp", 1))
     if d["horizon"] == "t0param": lay.append(("t0p", 1))
     if d["pc"]: lay.append(("pc", 1))
+    if d["pc"] == "both": lay.append(("pcq", 1))
     if d["vg"]: lay.append(("vg", 1))
     if d["horizon"] in ("Tfree", "bothfree"): lay.append(("Tv", 1))
     if d["horizon"] in ("t0free", "bothfree"): lay.append(("t0v", 1))
-    if d["vc"]: lay.append(("vc", 1))
-    return lay
+    return order_layout(d, lay)
+
+
+def order_layout(d, lay):
+    """stage.p = parameters: global, 'control', 'control+'; stage.v = variables: global, 'control', 'control+'"""
+    out = [e for e in lay if e[0] in ("pg", "Tp", "t0p")]
+    if d["pc"] in ("control", "both"): out.append(("pc", 1))
+    if d["pc"] == "control+": out.append(("pc", 1))
+    if d["pc"] == "both": out.append(("pcq", 1))
+    out += [e for e in lay if e[0] in ("vg", "Tv", "t0v")]
+    if d["vc"] in ("control", "both"): out.append(("vc", 1))
+    if d["vc"] == "control+": out.append(("vc", 1))
+    if d["vc"] == "both": out.append(("vcq", 1))
+    return out
 
 
 def check_discrete_system(case, res, tags):
@@ -96,6 +122,8 @@ def check_discrete_system(case, res, tags):
             elif name == "pc": pv.append(tr.pc[k])
             elif name == "vg": pv.append(tr.vg)
             elif name == "vc": pv.append(tr.vc[k])
+            elif name == "pcq": pv.append(tr.pcq[k])
+            elif name == "vcq": pv.append(tr.vcq[k])
             elif name == "Tp": pv.append(tr.T)
             elif name == "t0p": pv.append(tr.t0)
             else: pv.append(0.77)
